@@ -102,7 +102,73 @@ func runKindExh(p *Program, r *RuleResult) {
 				}
 			}
 		}
+		// every statement of the kind: from the entry of the arm no way leads on to the next
+		// statement (the loop header) without an append
+		skip := ""
 		if handled {
+			isAppend := func(in ssa.Instruction) bool {
+				call, ok := in.(*ssa.Call)
+				if !ok {
+					return false
+				}
+				bi, ok := call.Common().Value.(*ssa.Builtin)
+				return ok && bi.Name() == "append"
+			}
+			for _, b := range view.Blocks() {
+				ins := view.Instrs(b)
+				iff, ok := ins[len(ins)-1].(*ssa.If)
+				if !ok {
+					continue
+				}
+				bo, ok := iff.Cond.(*ssa.BinOp)
+				if !ok || bo.Op != token.EQL {
+					continue
+				}
+				k, ok := bo.Y.(*ssa.Const)
+				if !ok || !types.Identical(k.Type(), kind) || k.Int64() != cv {
+					continue
+				}
+				var loop *Loop
+				for _, l := range view.Loops() {
+					if l.Body[b] && (loop == nil || len(l.Body) < len(loop.Body)) {
+						loop = l
+					}
+				}
+				if loop == nil || len(view.Succs(b)) != 2 {
+					continue
+				}
+				seen := map[*ssa.BasicBlock]bool{}
+				var walk func(x *ssa.BasicBlock)
+				walk = func(x *ssa.BasicBlock) {
+					if skip != "" || seen[x] {
+						return
+					}
+					seen[x] = true
+					for _, in := range view.Instrs(x) {
+						if isAppend(in) {
+							return
+						}
+					}
+					for _, su := range view.Succs(x) {
+						if su == loop.Header {
+							xi := view.Instrs(x)
+							skip = p.instrPos(xi[len(xi)-1])
+							if skip == "" || skip == "-" {
+								skip = "block " + x.Comment
+							}
+							return
+						}
+						if loop.Body[su] {
+							walk(su)
+						}
+					}
+				}
+				walk(view.Succs(b)[0])
+			}
+		}
+		if handled && skip != "" {
+			r.add(name, "kind:"+c.Name(), Violated, p.pos(fn.Pos()), "a statement of kind "+c.Name()+" can be passed over without being added to any collection (the loop goes on to the next statement from "+skip+"): the declaration is silently ignored")
+		} else if handled {
 			r.add(name, "kind:"+c.Name(), Holds, p.pos(fn.Pos()), "")
 		} else {
 			r.add(name, "kind:"+c.Name(), Violated, p.pos(fn.Pos()), "statements of kind "+c.Name()+" are silently dropped: "+why)
@@ -365,4 +431,157 @@ func runParseErr(p *Program, r *RuleResult) {
 		}
 		r.add(fnName(fn), "errors-propagated", v, p.pos(fn.Pos()), why)
 	}
+}
+
+// R-COLLECT-THEN-RESOLVE (C14): declarations are collected completely before any of them
+// is looked up, so that the order in which they are written does not matter.
+func init() {
+	register(&Rule{Name: "R-COLLECT-THEN-RESOLVE", Min: 5,
+		Doc: "in the function that turns parsed statements into declarations: a collection that is still being appended to in a loop over the statements is not handed to a lookup (any first-party call other than append) inside that same loop; resolving a name against the declarations collected so far makes the result depend on the textual order of declarations",
+		Run: runCollectThenResolve})
+}
+
+func runCollectThenResolve(p *Program, r *RuleResult) {
+	fn := p.expandFunc()
+	if fn == nil {
+		r.add(parserPkg, "expand-function", Undecided, "", "the statement-expanding function was not found")
+		return
+	}
+	view := p.View(fn)
+	name := fnName(fn)
+	n := 0
+	for pli, l := range view.Loops() {
+		// collections appended in this loop: header phis fed by an append result from the body
+		for _, in := range l.Header.Instrs {
+			ph, ok := in.(*ssa.Phi)
+			if !ok {
+				break
+			}
+			if _, isSl := ph.Type().Underlying().(*types.Slice); !isSl {
+				continue
+			}
+			grows := false
+			versions := map[ssa.Value]bool{ph: true}
+			// all values of the collection inside the loop: phis and append results derived from ph
+			for changed := true; changed; {
+				changed = false
+				for _, b := range fn.Blocks {
+					if !l.Body[b] {
+						continue
+					}
+					for _, x := range b.Instrs {
+						switch y := x.(type) {
+						case *ssa.Call:
+							if bi, ok := y.Common().Value.(*ssa.Builtin); ok && bi.Name() == "append" && versions[y.Common().Args[0]] && !versions[y] {
+								versions[y] = true
+								grows = true
+								changed = true
+							}
+						case *ssa.Phi:
+							if versions[y] {
+								continue
+							}
+							for _, e := range y.Edges {
+								if versions[e] {
+									versions[y] = true
+									changed = true
+								}
+							}
+						}
+					}
+				}
+			}
+			if !grows {
+				continue
+			}
+			n++
+			construct := fmt.Sprintf("collection:%s@loop%d", ph.Comment, pli+1)
+			bad := ""
+			for _, b := range fn.Blocks {
+				if !l.Body[b] {
+					continue
+				}
+				for _, x := range view.Instrs(b) {
+					c, ok := x.(ssa.CallInstruction)
+					if !ok {
+						continue
+					}
+					if _, isB := c.Common().Value.(*ssa.Builtin); isB {
+						continue
+					}
+					for _, a := range c.Common().Args {
+						if versions[a] {
+							callee := "a function"
+							if sc := c.Common().StaticCallee(); sc != nil {
+								callee = sc.Name()
+							}
+							bad = fmt.Sprintf("%s is handed to %s at %s while the loop that fills it is still running: only the declarations written earlier in the text are visible to that lookup", ph.Comment, callee, p.instrPos(c))
+						}
+					}
+				}
+			}
+			if bad != "" {
+				r.add(name, construct, Violated, p.pos(ph.Pos()), bad)
+			} else {
+				r.add(name, construct, Holds, p.pos(ph.Pos()), "only appended to inside the loop; looked up after it")
+			}
+		}
+	}
+	// collections held in a local cell (their address is taken, e.g. stored into the result)
+	for li, l := range view.Loops() {
+		for _, b := range fn.Blocks {
+			for _, in := range b.Instrs {
+				al, ok := in.(*ssa.Alloc)
+				if !ok {
+					continue
+				}
+				if _, isSl := al.Type().Underlying().(*types.Pointer).Elem().Underlying().(*types.Slice); !isSl {
+					continue
+				}
+				grows := false
+				for _, st := range storesTo(al) {
+					if c, ok := st.Val.(*ssa.Call); ok && l.Body[st.Block()] {
+						if bi, ok := c.Common().Value.(*ssa.Builtin); ok && bi.Name() == "append" {
+							grows = true
+						}
+					}
+				}
+				if !grows {
+					continue
+				}
+				n++
+				construct := fmt.Sprintf("collection:%s@loop%d", al.Comment, li+1)
+				bad := ""
+				for _, bb := range fn.Blocks {
+					if !l.Body[bb] {
+						continue
+					}
+					for _, x := range view.Instrs(bb) {
+						c, ok := x.(ssa.CallInstruction)
+						if !ok {
+							continue
+						}
+						if _, isB := c.Common().Value.(*ssa.Builtin); isB {
+							continue
+						}
+						for _, a := range c.Common().Args {
+							if ld, ok := a.(*ssa.UnOp); ok && ld.X == ssa.Value(al) {
+								callee := "a function"
+								if sc := c.Common().StaticCallee(); sc != nil {
+									callee = sc.Name()
+								}
+								bad = fmt.Sprintf("%s is handed to %s at %s while the loop that fills it is still running: only the declarations written earlier in the text are visible to that lookup", al.Comment, callee, p.instrPos(c))
+							}
+						}
+					}
+				}
+				if bad != "" {
+					r.add(name, construct, Violated, p.pos(al.Pos()), bad)
+				} else {
+					r.add(name, construct, Holds, p.pos(al.Pos()), "only appended to inside the loop; looked up after it")
+				}
+			}
+		}
+	}
+	r.count("collections filled in loops", n)
 }
